@@ -43,7 +43,9 @@ UU = {'volt': 'volt', 'volts': 'volt', 'V': 'volt', 'ampere': 'ampere', 'amperes
       'Hz': 'hertz', 'hertz': 'hertz', 's': 'second', 'second': 'second', 'seconds': 'second',
       'rad': 'radian', 'radian': 'radian', 'radians': 'radian'}
 TRANSFORM_FILES = ['texpr.py', 'sexpr.py', 'fexpr.py', 'omegaexpr.py', 'jfexpr.py', 'jomegaexpr.py',
-                   'normfexpr.py', 'normomegaexpr.py']
+                   'normfexpr.py', 'normomegaexpr.py',
+                   # round 3: the discrete-time family and the constant domains
+                   'nexpr.py', 'zexpr.py', 'kexpr.py', 'cexpr.py']
 
 
 class Unparsed(Exception):
@@ -216,11 +218,24 @@ def transform_rows(repo, class_domain, unparsed):
         if not os.path.exists(path):
             continue
         tree = ast.parse(open(path).read())
+        # a base class of the file whose methods the generic classes inherit (cexpr.py: ConstantExpr):
+        # its rows are emitted for every generic class of the file that derives from it and does not override the method
+        local = {n.name: n for n in tree.body if isinstance(n, ast.ClassDef)}
+        work = []
         for node in tree.body:
-            if not isinstance(node, ast.ClassDef) or node.name not in class_domain:
+            if not isinstance(node, ast.ClassDef):
                 continue
-            src = class_domain[node.name]
+            if node.name in class_domain:
+                work.append((node, class_domain[node.name], None))
+            else:
+                for sub in local.values():
+                    if sub.name in class_domain and any(isinstance(b, ast.Name) and b.id == node.name for b in sub.bases):
+                        own = {f.name for f in sub.body if isinstance(f, ast.FunctionDef)}
+                        work.append((node, class_domain[sub.name], own))
+        for node, src, overridden in work:
             for f in node.body:
+                if overridden is not None and isinstance(f, ast.FunctionDef) and f.name in overridden:
+                    continue
                 if not isinstance(f, ast.FunctionDef):
                     continue
                 calls = []
